@@ -49,8 +49,8 @@ func expandFuncs(E *Engine, pats []string) []string {
 			re := regexp.MustCompile(p[len("contracts:"):])
 			var ks []string
 			for k := range E.S.C {
-				if _, ok := E.P.Funcs[k]; ok && re.MatchString(k) {
-					ks = append(ks, k)
+				if _, ok := E.P.Funcs[k]; ok && re.MatchString(k) && !E.S.C[k].Trusted {
+					ks = append(ks, k) // (trusted contracts are assumptions: listed in the evidence, not verified)
 				}
 			}
 			sort.Strings(ks)
